@@ -134,8 +134,13 @@ def main():
               "level": getattr(mod, "LEVEL", "exploration"), "coverage": cov,
               "assumptions": getattr(mod, "ASSUMPTIONS", []), "wall_s": round(wall, 2),
               "violations": len(unlisted)}
-        os.makedirs(os.path.join(common.VERIF, "evidence"), exist_ok=True)
-        with open(os.path.join(common.VERIF, "evidence", f"{pid}.json"), "w") as f:
+        # evidence describes runs against /repo itself; runs against a scratch copy (VERIF_REPO set by the
+        # mutant self-test) must not overwrite it
+        evdir = os.path.join(common.VERIF, "evidence")
+        if os.path.realpath(common.REPO) != os.path.realpath("/repo"):
+            evdir = os.environ.get("VERIF_EVIDENCE_DIR") or os.path.join(common.scratch_root(), "evidence_alt")
+        os.makedirs(evdir, exist_ok=True)
+        with open(os.path.join(evdir, f"{pid}.json"), "w") as f:
             json.dump(ev, f, indent=1, sort_keys=True, default=str)
     # ---- verdict
     print(f"[{pid} {tier} seed={seed}] cases={len(cases)} evaluations={evals} held={held} "
